@@ -5,6 +5,7 @@ import U3.Lemmas.RespRead1
 import U3.Lemmas.RespInst
 import U3.Lemmas.RespZstd
 import U3.Lemmas.RespGzip
+import U3.Lemmas.RespGzipEnc
 import U3.Lemmas.RespDeflate
 import U3.Lemmas.RespMulti
 import U3.Lemmas.RespChunked
@@ -584,6 +585,60 @@ theorem C12_iter_chunked_concat {δ : Type} (D : Dec δ) (cfg : Cfg δ) {G : δ 
   have := iter_nonempty hSrc D cfg r
   rw [hi] at this
   exact this
+
+/-- **`C12_gzip_stored_family`**: for EVERY list of payloads (each at most 65535 bytes), the
+stored-block gzip stream `gzStream ps` (one member per payload: header, final stored block, CRC-32,
+ISIZE — what `zlib` produces at level 0 for short inputs) stands in the relation `GzG` / `CDGall`
+to the concatenated payload: the hypothesis `Inv` of the theorems above is met by real gzip bytes for
+all payloads and member counts, not only by evaluated examples -/
+theorem C12_gzip_stored_family (ps : List Bytes) (hps : ∀ p ∈ ps, p.length ≤ 65535 ∧ ∀ b ∈ p, b < 256) :
+    GzG gzipO (Gz.new gzipO) (gzStream ps) ps.flatten ∧
+    CDGall (.one (.gzip (Gz.new gzipO))) (gzStream ps) ps.flatten :=
+  ⟨GzG_gzStream ps hps, GzG_gzStream ps hps⟩
+
+/-- … so a fresh `Content-Encoding: gzip` response whose *chunked* body carries `gzStream ps` in ANY
+chunk vector (any size-line spellings, extensions, trailers) satisfies `Inv` for the payload
+`ps.flatten` — every hypothesis of `C12_concat` (b) is discharged for all payloads and chunkings -/
+theorem C12_inv_gzip_chunked (cfg : Cfg CD) (hnd : cfg.newDecoder = some (.one (.gzip (Gz.new gzipO))))
+    (r : R H CD) (f : Fp) (cs : List WChunk) (last after : Bytes) (ps : List Bytes)
+    (hdec : r.decoder = none) (hbuf : r.buf = []) (hlr : r.lengthRemaining = none) (hcl0 : r.chunkLeft = none)
+    (hh : r.fp.head = false) (hc : r.fp.chunked = true) (hcl : r.fp.closed = false) (hf : r.fp.fp = some f)
+    (hl : r.fp.chunkLeft = none) (hcont : f.content = encChunks cs last after)
+    (hcs : ∀ c ∈ cs, c.ok) (hlast : SizeLineOk last 0)
+    (hdata : (cs.map WChunk.data).flatten = gzStream ps)
+    (hps : ∀ p ∈ ps, p.length ≤ 65535 ∧ ∀ b ∈ p, b < 256) :
+    Inv cfg cRem CI CDGall r ps.flatten ∧ Fresh r := by
+  obtain ⟨h1, h2⟩ := CInv_of_encoded r.fp f cs last after hh hc hcl hf hl hcont hcs hlast
+  refine ⟨(C12_inv_at_start cfg r ps.flatten hdec hbuf).mpr ⟨⟨h1, hlr⟩, ?_⟩, ⟨by rw [hbuf]; rfl, hcl0, hl⟩⟩
+  rw [hnd, h2, hdata]
+  exact GzG_gzStream ps hps
+
+/-- … and likewise with a `Content-Length` (or, with `length = none`, close-delimited) framing -/
+theorem C12_inv_gzip_length (cfg : Cfg CD) (hnd : cfg.newDecoder = some (.one (.gzip (Gz.new gzipO))))
+    (r : R H CD) (f : Fp) (ps : List Bytes)
+    (hdec : r.decoder = none) (hbuf : r.buf = [])
+    (hh : r.fp.head = false) (hc : r.fp.chunked = false) (hcl : r.fp.closed = false) (hf : r.fp.fp = some f)
+    (hcont : f.content = gzStream ps)
+    (hlen : (r.fp.length = some (gzStream ps).length ∧ r.lengthRemaining = some ((gzStream ps).length : Int)) ∨
+            (r.fp.length = none ∧ r.lengthRemaining = none))
+    (hps : ∀ p ∈ ps, p.length ≤ 65535 ∧ ∀ b ∈ p, b < 256) :
+    Inv cfg hRem HI CDGall r ps.flatten := by
+  have hrem : hRem r.fp = gzStream ps := by
+    rcases hlen with ⟨h1, _⟩ | ⟨h1, _⟩
+    · simp [hRem, hf, h1, hcont]
+    · simp [hRem, hf, h1, hcont]
+  refine (C12_inv_at_start cfg r ps.flatten hdec hbuf).mpr ⟨⟨⟨hh, hc, fun g hg => ⟨hcl, fun l hl => ?_⟩⟩, ?_⟩, ?_⟩
+  · rw [hf] at hg; cases hg
+    rcases hlen with ⟨h1, _⟩ | ⟨h1, _⟩
+    · rw [h1] at hl; cases hl; rw [hcont]; exact Nat.le_refl _
+    · rw [h1] at hl; cases hl
+  · rcases hlen with ⟨_, h2⟩ | ⟨h1, h2⟩
+    · left; rw [h2, hrem]
+    · right; exact ⟨h2, Or.inr h1⟩
+  · rw [hnd, hrem]
+    exact GzG_gzStream ps hps
+
+example : ∀ p ∈ [lit "hello", [], lit "!"], p.length ≤ 65535 ∧ ∀ b ∈ p, b < 256 := by decide
 
 /-- **`C12_concat`** — the headline, for responses read through `http.client` (`hSrc`) with
 urllib3's decoders (`cdDec`), decoding on, in the reading of DESIGN §6 "Interpretation":
